@@ -258,6 +258,7 @@ Export ==
             texts |-> [j \in 1..(StyleTo - StyleFrom + 1) |-> Text(args, Styles[StyleFrom + j - 1])],
             serial |-> Serial(args, Canon),
             lenient |-> [j \in 1..(StyleTo - StyleFrom + 1) |-> "tse" \in Outcomes(args, Styles[StyleFrom + j - 1]) /\ ~bad],
+            slot |-> SlotApplies(args),
             expect |-> IF bad THEN NoValues ELSE Denote(args),
             devs |-> Devs(args)])
 \* cheap variant used to size a configuration: one short line per case
